@@ -206,7 +206,9 @@ pub fn replay(cases: &[J]) -> J {
                 let ost = o["st"].as_str().unwrap();
                 // a SELECT step with no row is `None` in the code and an empty "ok" step in the model
                 let e_empty = st["recs"].as_array().unwrap().is_empty();
+                // an aggregate step on which no row passed shows nothing new: either no table at all, or the current table once more
                 let same_st = if !is_agg && est == "ok" && e_empty { ost == "none" || (ost == "ok" && o["recs"].as_array().unwrap().is_empty()) }
+                              else if is_agg && est == "none" { ost == "none" || (ost == "ok" && o["recs"] == norm_nan(&st["recs"])) }
                               else { ost == est };
                 if !same_st { ok = false; why = format!("step {}: status {} vs model {}", i, ost, est); break; }
                 if est == "ok" && !e_empty {
